@@ -134,7 +134,9 @@ def write_xlsb(path, formats, xfs, is_1904, cells, fonts=True):
     sh = (brec(0x0081) + brec(0x0094, struct.pack("<IIII", 0, 0, 0, max(len(cells) - 1, 0))) +
           brec(0x0091) + brec(0x0000, struct.pack("<IIHBBBI", 0, 0, 300, 0, 0, 0, 0)))
     for col, (ixfe, kind, payload) in enumerate(cells):
-        head = struct.pack("<I", col) + struct.pack("<I", ixfe & 0xFFFFFF)   # iStyleRef 24 bits + flags
+        # Cell [MS-XLSB 2.5.9]: column, iStyleRef (24 bits), fPhShow (1 bit), 7 reserved bits; every
+        # third cell shows its phonetic guide (the flag must not leak into the style index)
+        head = struct.pack("<I", col) + struct.pack("<I", (ixfe & 0xFFFFFF) | ((1 if col % 3 == 1 else 0) << 24))
         if kind == "num":
             sh += brec(0x0005, head + struct.pack("<Q", payload))
         elif kind == "rk":
